@@ -328,6 +328,64 @@ func setUnknownRoundTrip(h *hz.H, md protoreflect.MessageDescriptor, base []byte
 	}
 }
 
+// setUnknownHistory: SetUnknown(u1) (or a decode that stores u1); the caller keeps what GetUnknown returns;
+// SetUnknown(u2). The set must have been *replaced*: the kept slice and both arguments still read as before,
+// GetUnknown returns exactly u2 and the encoding ends with exactly u2. Run on the generated message and on
+// both references (struct reflection over a second struct, dynamicpb); judged where the references agree.
+func setUnknownHistory(h *hz.H, md protoreflect.MessageDescriptor, base []byte, baseLbl string, u1, u2 []byte, viaDecode bool) {
+	mode := "setunknown-history"
+	if viaDecode {
+		mode = "setunknown-after-decode"
+	}
+	cc := c14case{Type: string(md.FullName()), Base: hex.EncodeToString(base), BaseLbl: baseLbl, Recs: []string{hex.EncodeToString(u1), hex.EncodeToString(u2)}, Mode: mode}
+	h.Eval(true, hz.HashBytes([]byte("C14"+mode), []byte(md.FullName()), base, u1, []byte{0xff}, u2))
+	d := enum.NewDyn(md)
+	if err := (proto.UnmarshalOptions{DiscardUnknown: true}).Unmarshal(base, d); err != nil {
+		return
+	}
+	noUnk, _ := proto.MarshalOptions{Deterministic: true}.Marshal(d)
+	run := func(m protoreflect.Message, whole proto.Message) (res string) {
+		if p := hz.Catch(func() {
+			in1 := append([]byte(nil), u1...)
+			if viaDecode {
+				if err := (proto.UnmarshalOptions{Merge: true}).Unmarshal(append([]byte(nil), u1...), whole); err != nil {
+					res = "decode-error"
+					return
+				}
+			} else {
+				m.SetUnknown(protoreflect.RawFields(in1))
+			}
+			kept := m.GetUnknown()
+			keptWas := append([]byte(nil), kept...)
+			var in2 []byte
+			if u2 != nil {
+				in2 = append([]byte(nil), u2...)
+			}
+			m.SetUnknown(protoreflect.RawFields(in2))
+			now := m.GetUnknown()
+			enc, _ := proto.MarshalOptions{Deterministic: true}.Marshal(whole)
+			res = fmt.Sprintf("kept-slice-unchanged=%v first-argument-unchanged=%v second-argument-unchanged=%v kept-was=%x get=%x encoding-tail-ok=%v",
+				bytes.Equal(kept, keptWas), bytes.Equal(in1, u1), bytes.Equal(in2, u2), keptWas, []byte(now), bytes.Equal(enc, append(append([]byte(nil), noUnk...), u2...)))
+		}); p != nil {
+			res = fmt.Sprintf("PANIC %v", p)
+		}
+		return
+	}
+	g := enum.BuildGo(d)
+	s := enum.BuildGo(d)
+	dd := enum.NewDyn(md)
+	proto.Merge(dd, d)
+	rs := run(enum.Slow(s), enum.Slow(s).Interface())
+	rd := run(dd, dd)
+	if rs != rd {
+		h.Counter("setunknown_histories_where_references_disagree_not_judged", 1)
+		return
+	}
+	if rf := run(g.ProtoReflect(), g); rf != rd {
+		h.Violate(fmt.Sprintf("C14/%s@%s", mode, md.FullName()), fmt.Sprintf("%s on %s (base %s): first set %x, GetUnknown kept by the caller, then SetUnknown(%x): generated %s; references %s", mode, md.FullName(), baseLbl, u1, u2, rf, rd), cc)
+	}
+}
+
 func runC14(h *hz.H) {
 	if h.Replay != "" {
 		var cc c14case
@@ -341,6 +399,13 @@ func runC14(h *hz.H) {
 		if cc.Mode == "setunknown" {
 			u, _ := hex.DecodeString(cc.Recs[0])
 			setUnknownRoundTrip(h, md, base, cc.BaseLbl, u)
+		} else if strings.HasPrefix(cc.Mode, "setunknown-") {
+			u1, _ := hex.DecodeString(cc.Recs[0])
+			u2, _ := hex.DecodeString(cc.Recs[1])
+			if cc.Recs[1] == "" {
+				u2 = nil
+			}
+			setUnknownHistory(h, md, base, cc.BaseLbl, u1, u2, cc.Mode == "setunknown-after-decode")
 		} else {
 			root, ok := parseLevel(base, md, "top", 0)
 			if !ok {
@@ -452,12 +517,22 @@ func runC14(h *hz.H) {
 				evalInjection(h, bs.md, bs.bytes, bs.label, root, lv, []inj{{lv[p.li], p.pos, p.rec}, {lv[q.li], q.pos, q.rec}}, []int{p.li, q.li})
 			}
 		}
-		for _, u := range enum.UnknownAlphabet(bs.md, enum.Boundary) {
+		ua := enum.UnknownAlphabet(bs.md, enum.Boundary)
+		for _, u := range ua {
 			setUnknownRoundTrip(h, bs.md, bs.bytes, bs.label, u)
+		}
+		if it.(int)%8 == 0 || len(bs.bytes) < 4 {
+			// ordered pairs (longer-then-shorter and shorter-then-longer both occur), nil as the second
+			for _, u1 := range ua {
+				for _, u2 := range append(append([][]byte(nil), ua...), nil) {
+					setUnknownHistory(h, bs.md, bs.bytes, bs.label, u1, u2, false)
+					setUnknownHistory(h, bs.md, bs.bytes, bs.label, u1, u2, true)
+				}
+			}
 		}
 		h.Counter("nesting_levels_injected_into", int64(len(lv)))
 		_ = levelShapes
 	})
-	h.Rep.Rule = "base streams = reference encodings of every <=1-slot value (reduced alphabet, nesting depth 2) + every single record of the C03 alphabet, per pulsar type; each is parsed with the schema into nesting levels (top, singular message, list element, map value, oneof member); ONE unknown record from that level's unknown alphabet at EVERY record boundary of EVERY level, and every PAIR of injections over a reduced alphabet; DiscardUnknown off and on; plus SetUnknown/GetUnknown round trips; all cases non-trivial; distinct = hash(type, injected stream)"
+	h.Rep.Rule = "base streams = reference encodings of every <=1-slot value (reduced alphabet, nesting depth 2) + every single record of the C03 alphabet, per pulsar type; each is parsed with the schema into nesting levels (top, singular message, list element, map value, oneof member); ONE unknown record from that level's unknown alphabet at EVERY record boundary of EVERY level, and every PAIR of injections over a reduced alphabet; DiscardUnknown off and on; plus SetUnknown/GetUnknown round trips and every ordered pair history SetUnknown-or-decode(u1); keep GetUnknown; SetUnknown(u2) on every 8th base stream; all cases non-trivial; distinct = hash(type, injected stream)"
 	h.Rep.Assumptions = []string{"dynamicpb (protobuf-go v1.34.0) is the reference for where unknown records are stored and how they are re-emitted", "unknown records injected inside map *entries* (not map values) are C03's business: the reference drops them"}
 }
